@@ -21,6 +21,7 @@ CONSTANTS
   UseBuild = FALSE
   NChanges = {1}
   QuietW2 = FALSE
+  UseFarTtl = FALSE
   UseDiverge = FALSE
   UseAdv = FALSE
 SPECIFICATION Spec
